@@ -105,6 +105,11 @@ type input struct {
 	StartHex string     `json:"start_hex"`
 	Start    string     `json:"start_readable"`
 	Ks       []int      `json:"ks"`
+	// Cancels: further runs against a consumer that accepts everything while the context given to
+	// the listing call becomes done during its j-th call: cancelled (context.WithCancel) or, with
+	// Expire, past its deadline (Err() = context.DeadlineExceeded)
+	Cancels []int `json:"cancels,omitempty"`
+	Expire  bool  `json:"expire,omitempty"`
 }
 
 func (s *stackDesc) shape() string {
@@ -431,6 +436,12 @@ const maxStuck = 3
 // drain runs the iterator against the consumer that declines at its k-th call (k = 0: never).
 // mk makes the listing call itself (ociunify drains its members inside that call already).
 func drain[T any](mk func() ociregistry.Seq[T], k int, maxCalls int, show func(T) string, isZero func(T) bool) []entry {
+	return drainAt(mk, k, maxCalls, show, isZero, nil)
+}
+
+// drainAt: like drain; during is called inside every yield call (with the number of the call)
+// before the consumer answers.
+func drainAt[T any](mk func() ociregistry.Seq[T], k int, maxCalls int, show func(T) string, isZero func(T) bool, during func(n int)) []entry {
 	var mu sync.Mutex
 	var log []entry
 	abandoned := false
@@ -453,6 +464,9 @@ func drain[T any](mk func() ociregistry.Seq[T], k int, maxCalls int, show func(T
 					return false
 				}
 				ans := n != k
+				if during != nil {
+					during(n)
+				}
 				switch {
 				case err != nil && !isZero(x):
 					log = append(log, entry{Bad: "item together with an error: " + show(x), Answer: ans})
@@ -534,6 +548,70 @@ func runQueryMany(r ociregistry.Interface, q queryDesc, start string, ks []int, 
 		panic("unknown query kind " + q.Kind)
 	}
 	return logs
+}
+
+// A context whose deadline "passes" when expire is called: Done is closed and Err reports
+// context.DeadlineExceeded from then on (a real deadline cannot be made to pass at a chosen
+// yield call).
+type deadlineCtx struct {
+	context.Context
+	done chan struct{}
+	once sync.Once
+	gone atomic.Bool
+	at   time.Time
+}
+
+func newDeadlineCtx() *deadlineCtx {
+	return &deadlineCtx{Context: context.Background(), done: make(chan struct{}), at: time.Now().Add(time.Hour)}
+}
+func (c *deadlineCtx) Deadline() (time.Time, bool) { return c.at, true }
+func (c *deadlineCtx) Done() <-chan struct{}       { return c.done }
+func (c *deadlineCtx) Err() error {
+	if c.gone.Load() {
+		return context.DeadlineExceeded
+	}
+	return nil
+}
+func (c *deadlineCtx) expire() {
+	c.once.Do(func() { c.gone.Store(true); close(c.done) })
+}
+
+// runQueryCancel makes the listing call with a fresh context and iterates the sequence with a
+// consumer that accepts everything; during its j-th call the context is cancelled (or, with
+// expire, its deadline passes).
+func runQueryCancel(r ociregistry.Interface, q queryDesc, start string, j int, expire bool, maxCalls int) []entry {
+	var ctx context.Context
+	var stop func()
+	if expire {
+		d := newDeadlineCtx()
+		ctx, stop = d, d.expire
+	} else {
+		c, cancel := context.WithCancel(context.Background())
+		ctx, stop = c, cancel
+	}
+	defer stop()
+	during := func(n int) {
+		if n == j {
+			stop()
+		}
+	}
+	str := func(s string) string { return s }
+	strZero := func(s string) bool { return s == "" }
+	switch q.Kind {
+	case "repos":
+		return drainAt(func() ociregistry.Seq[string] { return r.Repositories(ctx, start) }, 0, maxCalls, str, strZero, during)
+	case "tags":
+		return drainAt(func() ociregistry.Seq[string] { return r.Tags(ctx, q.Repo, start) }, 0, maxCalls, str, strZero, during)
+	case "refs":
+		return drainAt(func() ociregistry.Seq[ociregistry.Descriptor] {
+			return r.Referrers(ctx, q.Repo, ociregistry.Digest(theSubject), "")
+		}, 0, maxCalls,
+			func(d ociregistry.Descriptor) string { return string(d.Digest) },
+			func(d ociregistry.Descriptor) bool {
+				return d.Digest == "" && d.Size == 0 && d.MediaType == "" && d.ArtifactType == "" && len(d.Annotations) == 0
+			}, during)
+	}
+	panic("unknown query kind " + q.Kind)
 }
 
 // ---------------------------------------------------------------- Coq terms
@@ -723,7 +801,8 @@ func coqLog(segs []segment) string {
 // ---------------------------------------------------------------- running one case
 
 type observed struct {
-	K    int       `json:"k"`
+	K      int `json:"k"`
+	Cancel int `json:"context_done_during_call,omitempty"` // a run of in.Cancels (K is 0)
 	Log  []entry   `json:"log,omitempty"`
 	Segs []segment `json:"log_segments,omitempty"` // instead of Log when the log has runs
 	// about the log (not written out)
@@ -807,8 +886,24 @@ func runCase(in input) (coq string, obs []observed, panicMsg string) {
 			}
 		}
 	}
-	coq = fmt.Sprintf("{| c_stack := %s; c_query := %s; c_start := %s; c_runs := %s |}",
-		coqStack(in.Stack), coqQuery(in.Query), hx.B(start), hx.List(runs))
+	// the context becomes done during the j-th call of a consumer that accepts everything
+	var cruns []string
+	if !bad {
+		for _, j := range in.Cancels {
+			if j < 1 {
+				continue
+			}
+			o := observe(0, runQueryCancel(reg, in.Query, start, j, in.Expire, maxCalls))
+			o.Cancel = j
+			obs = append(obs, o)
+			cruns = append(cruns, fmt.Sprintf("(%d, %s)", j, o.coq))
+			if o.lastBad {
+				break
+			}
+		}
+	}
+	coq = fmt.Sprintf("{| c_stack := %s; c_query := %s; c_start := %s; c_runs := %s; c_cruns := %s |}",
+		coqStack(in.Stack), coqQuery(in.Query), hx.B(start), hx.List(runs), hx.List(cruns))
 	return
 }
 
@@ -1327,6 +1422,59 @@ func ksFor(n int, p int, all bool) []int {
 	return ks
 }
 
+// cancelsFor chooses the yield calls during which the context becomes done for a listing of (at
+// most) n names behind page size p: from the first call, the last call of the first page, the
+// first call of the second page, the last but one and the last name, one or two per case in
+// rotation (turn counts the cases).
+var cancelTurn int
+
+func withCancels(in input, n int, p int) input {
+	seen := map[int]bool{}
+	var cands []int
+	for _, j := range []int{1, p, p + 1, n - 1, n, 2} {
+		if j >= 1 && j <= n && !seen[j] {
+			seen[j] = true
+			cands = append(cands, j)
+		}
+	}
+	cancelTurn++
+	if len(cands) == 0 {
+		return in
+	}
+	in.Cancels = []int{cands[cancelTurn%len(cands)]}
+	if cancelTurn%3 == 0 && len(cands) > 1 {
+		in.Cancels = append(in.Cancels, cands[(cancelTurn+1)%len(cands)])
+		sort.Ints(in.Cancels)
+	}
+	in.Expire = cancelTurn%2 == 0
+	return in
+}
+
+// ctxPath: the layers a context given to the listing call passes through until something
+// makes requests with it (hop) or stops looking at it after the call (the leaves; unify, which
+// has drained its members by then; a hop's Referrers)
+func ctxPath(s *stackDesc, q string) string {
+	var path []string
+	for s != nil {
+		switch s.Kind {
+		case "select", "sub", "debug":
+			path = append(path, s.Kind)
+			s = s.Inner
+			continue
+		case "hop":
+			if q == "refs" {
+				path = append(path, "hop-referrers")
+			} else {
+				path = append(path, "hop")
+			}
+		default:
+			path = append(path, s.Kind)
+		}
+		break
+	}
+	return strings.Join(path, ">")
+}
+
 func topPage(s *stackDesc) int {
 	for s != nil {
 		if s.Kind == "hop" {
@@ -1404,6 +1552,12 @@ func main() {
 			}
 			out.Count("start:" + startKind)
 			out.Stats["listings"] += len(in.Ks)
+			out.Stats["listings"] += len(in.Cancels)
+			if len(in.Cancels) > 0 {
+				out.Stats["cancelled_listings"] += len(in.Cancels)
+				out.Count("context:" + map[bool]string{false: "cancelled", true: "deadline"}[in.Expire])
+				out.Count("context-done-under:" + ctxPath(in.Stack, in.Query.Kind))
+			}
 			if vol := in.Stack.volume(); vol >= 900 {
 				out.Count("long:names>=" + map[bool]string{false: "900", true: "9999"}[vol >= 9999])
 				out.Count("long:pages:" + pagesOf(in.Stack))
@@ -1506,7 +1660,7 @@ func main() {
 					}
 					st := hop(p, mx, omit, mem(q, repo, names))
 					for _, s := range starts {
-						add(input{Stack: st, Query: queryDesc{Kind: q, Repo: repo}, StartHex: hexOf(s), Ks: ksFor(m, p, false)}, "core-1hop")
+						add(withCancels(input{Stack: st, Query: queryDesc{Kind: q, Repo: repo}, StartHex: hexOf(s), Ks: ksFor(m, p, false)}, m, p), "core-1hop")
 					}
 				}
 			}
@@ -1524,7 +1678,7 @@ func main() {
 				}
 				st := hop(p1, 0, g.r.Intn(2) == 0, hop(p2, 0, g.r.Intn(2) == 0, mem(q, repo, names)))
 				for _, s := range g.starts(names, 2) {
-					add(input{Stack: st, Query: queryDesc{Kind: q, Repo: repo}, StartHex: hexOf(s), Ks: ksFor(m, p1, false)}, "core-2hop")
+					add(withCancels(input{Stack: st, Query: queryDesc{Kind: q, Repo: repo}, StartHex: hexOf(s), Ks: ksFor(m, p1, false)}, m, p1), "core-2hop")
 				}
 			}
 		}
@@ -1563,7 +1717,7 @@ func main() {
 			{Kind: "unify", A: g.leafMem(lv), B: fn},
 			{Kind: "unify", A: fn, B: fn},
 		} {
-			add(input{Stack: st, Query: queryDesc{Kind: q, Repo: lv.repo}, StartHex: "", Ks: []int{0, 1, 2, 3}}, "funcs-unset")
+			add(withCancels(input{Stack: st, Query: queryDesc{Kind: q, Repo: lv.repo}, StartHex: "", Ks: []int{0, 1, 2, 3}}, 3, 2), "funcs-unset")
 		}
 	}
 	// --- random stacks
@@ -1628,7 +1782,7 @@ func main() {
 			nq = 1
 		}
 		for _, s := range g.starts(lv.names, nq) {
-			add(input{Stack: st, Query: queryDesc{Kind: lv.q, Repo: lv.repo}, StartHex: hexOf(s), Ks: ksFor(len(lv.names), topPage(st), false)}, "random")
+			add(withCancels(input{Stack: st, Query: queryDesc{Kind: lv.q, Repo: lv.repo}, StartHex: hexOf(s), Ks: ksFor(len(lv.names), topPage(st), false)}, len(lv.names), topPage(st)), "random")
 		}
 	}
 	// --- the start point one edit away from a name or a directory, under every layer (own random
@@ -1661,7 +1815,7 @@ func main() {
 			}
 			st := g2.compose(lv, layers)
 			for _, s := range g2.sweepStarts(lv.names, si+qi) {
-				add(input{Stack: st, Query: queryDesc{Kind: q, Repo: lv.repo}, StartHex: hexOf(s), Ks: []int{0}}, "edited-start")
+				add(withCancels(input{Stack: st, Query: queryDesc{Kind: q, Repo: lv.repo}, StartHex: hexOf(s), Ks: []int{0}}, len(lv.names), topPage(st)), "edited-start")
 			}
 		}
 	}
@@ -1681,7 +1835,7 @@ func main() {
 		}
 		st := g2.stack(lv, 1+g2.r.Intn(3), 1+g2.r.Intn(2))
 		for _, s := range g2.editStarts(lv.names, 5) {
-			add(input{Stack: st, Query: queryDesc{Kind: lv.q, Repo: lv.repo}, StartHex: hexOf(s), Ks: ksFor(len(lv.names), topPage(st), false)}, "random-family")
+			add(withCancels(input{Stack: st, Query: queryDesc{Kind: lv.q, Repo: lv.repo}, StartHex: hexOf(s), Ks: ksFor(len(lv.names), topPage(st), false)}, len(lv.names), topPage(st)), "random-family")
 		}
 	}
 	for _, lc := range pending {
